@@ -32,7 +32,8 @@
 EXTENDS Forest
 
 CONSTANTS MaxN, MaxAdds,
-          PVariant   \* "ok"; negative demonstration: "nochildren" (the moving node's children are not handed to its new sibling)
+          PVariant   \* "ok"; negative demonstrations: "nochildren" (the moving node's children are not handed to its new
+                     \* sibling), "noempties" (Undo does not put the overwritten empty roots back)
 
 VARIABLES n, live,
           hp,      \* heap: node id -> [data, l, r, aunt]  (0 = nil)
@@ -210,6 +211,143 @@ PBlock ==
     /\ live' = (live \ D) \cup (n..(n + k - 1))
 
 PSpec == PInit /\ [][PBlock]_pvars
+
+(***************************************************************************)
+(* Undo of a block (pollard.go: Undo, undoSingleAdd, undoEmptyRoots,       *)
+(* undoDels, undoSingleDel; polnode.go: deTwinPolNode).  The additions are *)
+(* taken back newest first by splitting the lowest root again and again;   *)
+(* empty roots that the block deleted or wrote over are put back from the  *)
+(* previous root list; for every deleted leaf a node is made, twins are    *)
+(* joined under a new parent, and the nodes are put back from the highest  *)
+(* position down: the node that had moved up into the parent's place goes  *)
+(* back to the sibling position under a new parent node.  TLC checks that  *)
+(* PollardRefines and AuntOK hold again for the state before the block.    *)
+(***************************************************************************)
+VARIABLE pprev
+uvars == <<n, live, hp, roots, nxt, pprev>>
+
+LowestBit(x) == CHOOSE g \in 0..(MAXH + 1) : Bit(x, g) /\ \A j \in 0..(g - 1) : ~Bit(x, j)
+
+\* undoSingleAdd: <<heap, roots>>
+RECURSIVE SplitDown(_, _, _)
+SplitDown(h, rts, row) ==
+  IF row < 0 THEN <<h, rts>>
+  ELSE LET lowest == rts[Len(rts)]
+           rest   == SubSeq(rts, 1, Len(rts) - 1)
+           l      == h[lowest].l
+           r      == h[lowest].r
+       IN  IF l # Nil
+           THEN LET h1 == SwapNieces(h, l, r)
+                    h2 == Set(Set(h1, l, "aunt", Nil), r, "aunt", Nil)
+                IN  SplitDown(DelNode(h2, lowest), rest \o <<l, r>>, row - 1)
+           ELSE <<DelNode(h, lowest), rest>>
+UndoSingleAdd(h, rts, x) == SplitDown(h, rts, LowestBit(x))
+
+RECURSIVE UndoAdds(_, _, _, _)
+UndoAdds(h, rts, x, k) ==
+  IF k = 0 THEN <<h, rts>>
+  ELSE LET u == UndoSingleAdd(h, rts, x) IN UndoAdds(u[1], u[2], x - 1, k - 1)
+
+\* undoEmptyRoots: <<heap, roots, next id>>; x = leaf count after the additions were taken back
+InsertRootAt(sq, i, v) == SubSeq(sq, 1, i - 1) \o <<v>> \o SubSeq(sq, i, Len(sq))
+RECURSIVE PutEmpties(_, _, _, _, _)
+PutEmpties(h, rts, id, cr, i) ==
+  IF i > Len(cr) THEN <<h, rts, id>>
+  ELSE IF cr[i] # Empty THEN PutEmpties(h, rts, id, cr, i + 1)
+  ELSE IF i > Len(rts)
+       THEN PutEmpties(New(h, id, Node(Empty, Nil, Nil, Nil)), Append(rts, id), id + 1, cr, i)   \* (appends until long enough)
+  ELSE IF h[rts[i]].data # Empty
+       THEN PutEmpties(New(h, id, Node(Empty, Nil, Nil, Nil)), InsertRootAt(rts, i, id), id + 1, cr, i + 1)
+  ELSE PutEmpties(h, rts, id, cr, i + 1)
+UndoEmptyRoots(h, rts, id, x, T, prevRoots) ==
+  IF Len(rts) >= PopCount(x) \/ PVariant = "noempties" THEN <<h, rts, id>>
+  ELSE LET cr == [i \in 1..Len(prevRoots) |->
+                    IF \E d \in T : IsRoot(x, d) /\ RootIndex(x, d.row) = i THEN Empty ELSE prevRoots[i]]
+       IN  PutEmpties(h, rts, id, cr, 1)
+
+\* deTwinPolNode on a position-sorted list of <<node id, position>>: <<heap, list, next id>>
+InsertSorted(lst, el) ==
+  LET k == Cardinality({i \in 1..Len(lst) : ~PosLess(el[2], lst[i][2])})
+  IN  SubSeq(lst, 1, k) \o <<el>> \o SubSeq(lst, k + 1, Len(lst))
+RECURSIVE DeTwinNodes(_, _, _, _)
+DeTwinNodes(h, lst, id, i) ==
+  IF i > Len(lst) THEN <<h, lst, id>>
+  ELSE IF i + 1 <= Len(lst) /\ IsLeft(lst[i][2]) /\ Sib(lst[i][2]) = lst[i + 1][2]
+       THEN LET a   == lst[i][1]
+                b   == lst[i + 1][1]
+                h1  == SwapNieces(h, a, b)
+                h2  == New(h1, id, Node(H(h1[a].data, h1[b].data), a, b, Nil))
+                h3  == UpdAunt(h2, id)
+                cut == SubSeq(lst, 1, i - 1) \o SubSeq(lst, i + 2, Len(lst))
+            IN  DeTwinNodes(h3, InsertSorted(cut, <<id, Par(lst[i][2])>>), id + 1, i)
+       ELSE DeTwinNodes(h, lst, id, i + 1)
+
+\* undoSingleDel: <<heap, next id>>
+UndoSingleDel(h, rts, x, id, node, pos) ==
+  LET sp      == Par(pos)
+      sibling == At(h, rts, x, sp)
+      aunt    == IF IsRoot(x, sp) THEN sibling ELSE At(h, rts, x, Sib(sp))
+      pHash   == IF IsLeft(pos) THEN H(h[node].data, h[sibling].data) ELSE H(h[sibling].data, h[node].data)
+      h0      == New(h, id, Node(pHash, Nil, Nil, Nil))
+      parent  == id
+  IN  IF h0[sibling].aunt # Nil
+      THEN LET h1 == TransferAunt(h0, parent, sibling)
+               h2 == TransferNiece(h1, parent, sibling)
+               h3 == UpdAunt(h2, parent)
+               al == h3[aunt].l
+               ar == h3[aunt].r
+               h4 == IF IsLeft(pos) THEN [h3 EXCEPT ![aunt] = [@ EXCEPT !.l = node, !.r = sibling]]
+                                    ELSE [h3 EXCEPT ![aunt] = [@ EXCEPT !.l = sibling, !.r = node]]
+               h5 == UpdAunt(h4, aunt)
+               h6 == TransferNiece(h5, sibling, node)
+               h7 == [h6 EXCEPT ![node] = [@ EXCEPT !.l = al, !.r = ar]]
+               h8 == UpdAunt(h7, node)
+           IN  <<HashToRoot(h8, parent), id + 1>>
+      ELSE \* the cells are swapped: the root cell now holds the parent, the fresh cell the old root
+           LET h1  == [h0 EXCEPT ![sibling] = h0[parent], ![parent] = h0[sibling]]
+               par == sibling
+               sb  == parent
+               h2  == IF IsLeft(pos) THEN [h1 EXCEPT ![par] = [@ EXCEPT !.l = node, !.r = sb]]
+                                     ELSE [h1 EXCEPT ![par] = [@ EXCEPT !.l = sb, !.r = node]]
+               h3  == UpdAunt(UpdAunt(h2, par), sb)
+           IN  <<SwapNieces(h3, h3[par].l, h3[par].r), id + 1>>
+
+RECURSIVE PutBack(_, _, _, _, _, _)
+PutBack(h, rts, x, id, lst, i) ==
+  IF i = 0 THEN <<h, rts, id>>
+  ELSE LET node == lst[i][1]
+           pos  == lst[i][2]
+       IN  IF IsRoot(x, pos)
+           THEN PutBack(h, [rts EXCEPT ![RootIndex(x, pos.row)] = node], x, id, lst, i - 1)
+           ELSE LET u == UndoSingleDel(h, rts, x, id, node, pos)
+                IN  PutBack(u[1], rts, x, u[2], lst, i - 1)
+
+\* one node per deleted leaf, ids from `id' on, sorted by position
+RECURSIVE MakeNodes(_, _, _, _)
+MakeNodes(h, id, ps, tg) ==
+  IF ps = <<>> THEN <<h, <<>>, id>>
+  ELSE LET r == MakeNodes(New(h, id, Node(tg[Head(ps)], Nil, Nil, Nil)), id + 1, Tail(ps), tg)
+       IN  <<r[1], <<<<id, Head(ps)>>>> \o r[2], r[3]>>
+
+PUInit == PInit /\ pprev = <<>>
+Undone == [n |-> -1, live |-> {}]     \* marker: the behaviour ends after its undo (undo and redo allocate fresh nodes for ever)
+PUBlock == pprev # Undone /\ PBlock /\ pprev' = [n |-> n, live |-> live]
+PUndo ==
+  /\ pprev # <<>> /\ pprev # Undone
+  /\ LET x   == pprev.n
+         D   == pprev.live \ live
+         k   == n - x
+         nds == Nodes(x, pprev.live)
+         tg  == [p \in {PosOfIn(nds, s) : s \in D} |-> Leaf((CHOOSE nd \in nds : NodePos(nd) = p).slot)]
+         u1  == UndoAdds(hp, roots, n, k)
+         u2  == UndoEmptyRoots(u1[1], u1[2], nxt, x, DeTwin(DOMAIN tg), Roots(x, pprev.live))
+         mk  == MakeNodes(u2[1], u2[3], SortPos(DOMAIN tg), tg)
+         dt  == DeTwinNodes(mk[1], mk[2], mk[3], 1)
+         pb  == PutBack(dt[1], u2[2], x, dt[3], dt[2], Len(dt[2]))
+     IN  hp' = pb[1] /\ roots' = pb[2] /\ nxt' = pb[3]
+  /\ n' = pprev.n /\ live' = pprev.live /\ pprev' = Undone
+
+PUSpec == PUInit /\ [][PUBlock \/ PUndo]_uvars
 
 (***************************************************************************)
 (* Refinement                                                              *)
